@@ -179,6 +179,22 @@ func c02Arith(ctx *Ctx, a, b cty.Value) {
 		{"le", a.LessThanOrEqualTo(b), want <= 0}, {"ge", a.GreaterThanOrEqualTo(b), want >= 0},
 	}
 	ctx.Add("num.cmp", fmt.Sprint(a.AsBigFloat().Cmp(b.AsBigFloat())), wa, wb)
+	// "to within the precision of their operands": when the two operands round to the same value at the
+	// coarser of their precisions the order is not determined at that precision and either answer is accepted
+	if ra != nil && rb != nil && want != 0 {
+		p := a.AsBigFloat().Prec()
+		if q := b.AsBigFloat().Prec(); q < p {
+			p = q
+		}
+		if p > 0 {
+			x := new(big.Float).SetPrec(p).Set(a.AsBigFloat())
+			y := new(big.Float).SetPrec(p).Set(b.AsBigFloat())
+			if x.Cmp(y) == 0 {
+				ctx.Tag("cmp:equal-at-coarser-precision")
+				return
+			}
+		}
+	}
 	for _, c := range cmps {
 		if !c.got.IsKnown() || c.got.IsNull() || c.got.Type() != cty.Bool || c.got.True() != c.want {
 			ctx.Fail(Failure{Site: "compare", Sig: "cmp:" + c.name, What: "comparison disagrees with exact comparison", Input: wa + " " + wb, GoLit: lit, Outcome: c.got.GoString()})
